@@ -14,6 +14,13 @@ func NewDialog(callID string, localTag string, remoteTag string) *Dialog {
 	return &Dialog{callID: callID, localTag: localTag, remoteTag: remoteTag}
 }
 
+// String joins the components with their lengths: Call-IDs and tags may contain "-",
+// so a plain "-" join maps different dialogs to the same string
 func (d *Dialog) String() string {
-	return fmt.Sprintf("%s-%s-%s", d.callID, d.localTag, d.remoteTag)
+	return fmt.Sprintf("%d:%s-%d:%s-%d:%s", len(d.callID), d.callID, len(d.localTag), d.localTag, len(d.remoteTag), d.remoteTag)
+}
+
+// dialogHalf is one endpoint (tag, address) of a dialog id
+func dialogHalf(tag string, addr string) string {
+	return fmt.Sprintf("%d:%s-%s", len(tag), tag, addr)
 }
